@@ -18,6 +18,7 @@
 #include <foonathan/memory/allocator_storage.hpp>
 #include <foonathan/memory/threading.hpp>
 #include <foonathan/memory/tracking.hpp>
+#include <foonathan/memory/fallback_allocator.hpp>
 
 #include <atomic>
 #include <map>
@@ -231,10 +232,11 @@ static void enter_aux(int member, const char* site)
 struct ptr_state
 {
     obs* o;
+    ptr_state() noexcept : o(nullptr) {} // only reached when a (wrongly) stateless composition default-constructs its parts
     explicit ptr_state(obs* s) noexcept : o(s) {}
     obs& state() const noexcept
     {
-        return *o;
+        return o ? *o : *G;
     }
 };
 struct global_state
@@ -542,6 +544,44 @@ template <>
 ealloc make_alloc<ealloc>(obs*)
 {
     return ealloc();
+}
+// stateless default allocator of a fallback_allocator that refuses everything, so that every call reaches the fallback
+struct rsalloc : csalloc
+{
+    void* try_allocate_node(std::size_t, std::size_t) noexcept
+    {
+        enter_aux(TRY_ALLOC_NODE, "stateless default allocator try_allocate_node");
+        return nullptr;
+    }
+    void* try_allocate_array(std::size_t, std::size_t, std::size_t) noexcept
+    {
+        enter_aux(TRY_ALLOC_ARRAY, "stateless default allocator try_allocate_array");
+        return nullptr;
+    }
+    bool try_deallocate_node(void*, std::size_t, std::size_t) noexcept
+    {
+        enter_aux(TRY_DEALLOC_NODE, "stateless default allocator try_deallocate_node");
+        return false;
+    }
+    bool try_deallocate_array(void*, std::size_t, std::size_t, std::size_t) noexcept
+    {
+        enter_aux(TRY_DEALLOC_ARRAY, "stateless default allocator try_deallocate_array");
+        return false;
+    }
+};
+static_assert(std::is_empty<rsalloc>::value && !fm::allocator_traits<rsalloc>::is_stateful::value, "");
+// fallback_allocator: statefulness comes from ONE of its two parts
+using fb_sf = fm::fallback_allocator<rsalloc, ialloc>; // stateless default (always refuses), STATEFUL fallback
+using fb_fs = fm::fallback_allocator<ialloc, csalloc>; // stateful default (always succeeds), stateless fallback
+template <>
+fb_sf make_alloc<fb_sf>(obs* o)
+{
+    return fb_sf(rsalloc(), ialloc(o));
+}
+template <>
+fb_fs make_alloc<fb_fs>(obs* o)
+{
+    return fb_fs(ialloc(o), csalloc());
 }
 using tk_sf = fm::tracked_allocator<itracker, csalloc>; // stateful tracker over a stateless allocator
 using tk_es = fm::tracked_allocator<etracker, ialloc>;  // empty tracker over a stateful allocator
@@ -901,7 +941,8 @@ struct run_cfg
 {
     std::string storage = "direct", alloc = "stateful", mutex = "inst";
     // alloc: stateful | stateless | empty (empty class, is_stateful) | tracked-sf (stateful tracker over stateless
-    //        allocator) | tracked-es (empty tracker over stateful allocator);  mutex: inst | empty (empty Mutex class)
+    //        allocator) | tracked-es (empty tracker over stateful allocator) | fallback-sf (fallback_allocator<stateless
+    //        default, stateful fallback>) | fallback-fs (the reverse);  mutex: inst | empty (empty Mutex class)
 };
 
 template <template <class, class> class Holder>
@@ -924,6 +965,10 @@ static pworld_base* make_world_for(const run_cfg& c, const program& p)
         return new pworld<Holder<tk_sf, imutex>>(p);
     if (c.alloc == "tracked-es")
         return new pworld<Holder<tk_es, imutex>>(p);
+    if (c.alloc == "fallback-sf")
+        return new pworld<Holder<fb_sf, imutex>>(p);
+    if (c.alloc == "fallback-fs")
+        return new pworld<Holder<fb_fs, imutex>>(p);
     std::fprintf(stderr, "unknown alloc %s\n", c.alloc.c_str());
     std::exit(2);
 }
